@@ -262,9 +262,13 @@ Print Assumptions ex_c09_accepted_by_c02.
 
 (* ================================================================ composition, second round *)
 (* C09 <-> C11 (Compose/TxIdBind.v).  Theorems 6, 8 and 12 above carry the premise "an id determines the tx" (U_inj) about
-   the abstract universe U.  C11 proves, for the transactions the real decoders return and with Blake2b an opaque function H
-   whose collision-freeness is the NAMED hypothesis H_inj, that the id H(H(signing bytes) ++ origin) binds every signed field
-   and the origin.  With U instantiated by the records of those transactions (TxIdBind.view: id := the id bytes as a number,
+   the abstract universe U.  C11 proves, for the transactions the real decoders return and with Blake2b replaced by an opaque
+   function H that is assumed INJECTIVE ON ALL BYTE STRINGS (the named hypothesis H_inj), that the id
+   H(H(signing bytes) ++ origin) binds every signed field and the origin.  H_inj is an idealisation: it is false for any
+   fixed-length hash (so for Blake2b itself) and is satisfied only by identity-like functions; it stands for "no collision
+   is ever met" (Compose/TxIdBind.v:21-24).  The theorems below are therefore statements about an idealised collision-free
+   hash, not about Blake2b (18-19 below need collision-freeness only on the strings actually hashed; 20 is the
+   collision-extraction form at record level).  With U instantiated by the records of those transactions (TxIdBind.view: id := the id bytes as a number,
    chain tag / block-ref number / expiration / depends-on := projections of C11's signed part, origin := the 20 recovered
    bytes) U_inj is a THEOREM under H_inj, and 6, 8, 12 hold with U_inj replaced by H_inj. *)
 Section CompositionC11.
@@ -331,6 +335,66 @@ Section CompositionC11.
   Qed.
 End CompositionC11.
 
+(* 18-19. the same with collision-freeness required only ON THE STRINGS ACTUALLY HASHED.  H_inj above (C11's form) quantifies over
+   all byte strings, which no 32-byte hash satisfies; for any set S of (transaction, origin) pairs it suffices that H has no
+   collision among the SigningHash() and ID() preimages of S (TxIdBind.hashed H S) — satisfiable by a non-injective H when S
+   is finite (Example ex_c09_c11_on: a truncating hash). *)
+Section CompositionC11OnPreimages.
+  Variable H : Codec.Model.bytes -> Codec.Model.bytes.
+  Variable S : Codec.Model.tx -> Codec.Model.bytes -> Prop.
+  Hypothesis H_inj_on : forall a b, TxIdBind.hashed H S a -> TxIdBind.hashed H S b -> H a = H b -> a = b.
+  Notation US := (TxIdBind.c11_universe_on H S).
+
+  Theorem accepted_chain_inv_c11_on g gp tag : num_of g = 0 -> num_of gp = max_u32 ->
+    forall r, reachable g gp tag (accepted US) r -> forall h, stored r h ->
+      (forall a t, anc r h a -> tx_in r a t -> US t /\ tx_tag t = tag /\ tx_ref t <= num_of a /\ num_of a <= tx_ref t + tx_exp t) /\
+      (forall a1 t1 a2 t2, anc r h a1 -> anc r h a2 -> tx_in r a1 t1 -> tx_in r a2 t2 -> tx_id t1 = tx_id t2 -> a1 = a2) /\
+      (forall a s b, anc r h a -> get_block r a = Some (s, b) -> NoDup (map tx_id (b_txs b))).
+  Proof. intros Hg Hgp. exact (TxIdBind.accepted_chain_inv_c11_on H S H_inj_on g gp tag Hg Hgp). Qed.
+
+  Theorem has_tx_paths_agree_on_accepted_c11_on g gp tag : num_of g = 0 -> num_of gp = max_u32 ->
+    forall r, reachable g gp tag (accepted US) r ->
+    forall h t o, stored r h -> S t o -> Codec.Model.wfp Codec.Model.c_tx t -> length o = 20%nat ->
+      let x := TxIdBind.view H t o in
+      exists v, has_transaction r h (tx_id x) (tx_ref x) = Ok v /\ has_tx_indexed r h (tx_id x) = Ok v /\
+                (tx_ref x <= num_of h -> num_of h - tx_ref x < 100 -> recent_walk r (tx_id x) (tx_ref x) 102 h = Ok v) /\
+                (v = true <-> exists a, incl_on r h (tx_id x) a).
+  Proof. intros Hg Hgp. exact (TxIdBind.has_tx_paths_agree_on_accepted_c11_on H S H_inj_on g gp tag Hg Hgp). Qed.
+End CompositionC11OnPreimages.
+
+(* 20. collision extraction, no hypothesis on H: two records of decodable transactions with one id either agree in every signed
+       field and the origin, or exhibit an explicit collision of H among the four strings hashed for them *)
+Theorem tx_id_equal_or_collision H t1 t2 o1 o2 :
+  Codec.Model.wfp Codec.Model.c_tx t1 -> Codec.Model.wfp Codec.Model.c_tx t2 -> length o1 = length o2 ->
+  tx_id (TxIdBind.view H t1 o1) = tx_id (TxIdBind.view H t2 o2) ->
+  (Codec.ProofsBind.signed_part t1 = Codec.ProofsBind.signed_part t2 /\ o1 = o2 /\ TxIdBind.view H t1 o1 = TxIdBind.view H t2 o2) \/
+  TxIdBind.collision_in H (fun a => a = Codec.Model.go_signing_tx t1 \/ a = Codec.Model.go_signing_tx t2 \/
+                                    a = Codec.ProofsBind.go_tx_signing_hash H t1 ++ o1 \/
+                                    a = Codec.ProofsBind.go_tx_signing_hash H t2 ++ o2).
+Proof. exact (TxIdBind.view_id_extract H t1 t2 o1 o2). Qed.
+
+(* non-vacuity of 16 (the same transaction on both siblings, once per chain) and of 20 (a constant hash: the collision is exhibited) *)
+Example ex_c09_c11_once_and_extract :
+  (tx_in TxIdBindExamples.x_r3 (bid 2 1) TxIdBindExamples.x_vb /\ tx_in TxIdBindExamples.x_r3 (bid 2 2) TxIdBindExamples.x_vb) /\
+  (forall h a1 a2, stored TxIdBindExamples.x_r3 h -> anc TxIdBindExamples.x_r3 h a1 -> anc TxIdBindExamples.x_r3 h a2 ->
+     tx_in TxIdBindExamples.x_r3 a1 TxIdBindExamples.x_vb -> tx_in TxIdBindExamples.x_r3 a2 TxIdBindExamples.x_vb -> a1 = a2) /\
+  tx_id (TxIdBind.view TxIdBindExamples.x_H0 TxIdBindExamples.x_ta TxIdBindExamples.x_oa) =
+  tx_id (TxIdBind.view TxIdBindExamples.x_H0 TxIdBindExamples.x_tb TxIdBindExamples.x_ob).
+Proof.
+  split; [exact TxIdBindExamples.x_included_twice_on_siblings|]. split; [exact TxIdBindExamples.x_included_once|].
+  exact (proj1 TxIdBindExamples.x_extract_collision).
+Qed.
+
+Example ex_c09_c11_on :
+  (exists a b, a <> b /\ TxIdBindExamples.x_Ht a = TxIdBindExamples.x_Ht b) /\
+  (forall a b, TxIdBind.hashed TxIdBindExamples.x_Ht TxIdBindExamples.x_S a ->
+               TxIdBind.hashed TxIdBindExamples.x_Ht TxIdBindExamples.x_S b ->
+               TxIdBindExamples.x_Ht a = TxIdBindExamples.x_Ht b -> a = b) /\
+  reachable ex_g ex_gp 7 (accepted (TxIdBind.c11_universe_on TxIdBindExamples.x_Ht TxIdBindExamples.x_S)) TxIdBindExamples.x_q3.
+Proof.
+  split; [exact TxIdBindExamples.x_Ht_collides|]. split; [exact TxIdBindExamples.x_Ht_inj_on | exact TxIdBindExamples.x_history_on].
+Qed.
+
 (* non-vacuity of 13-16: an injective toy hash, decodable transactions (legacy and dynamic-fee), a fork history with the
    same transaction on both siblings, every block accepted: all premises met, H_inj proved for the instance *)
 Example ex_c09_c11 :
@@ -350,3 +414,8 @@ Print Assumptions has_tx_paths_agree_on_accepted_c11.
 Print Assumptions included_once_c11.
 Print Assumptions c02_accepted_chain_inv_c11.
 Print Assumptions ex_c09_c11.
+Print Assumptions accepted_chain_inv_c11_on.
+Print Assumptions has_tx_paths_agree_on_accepted_c11_on.
+Print Assumptions ex_c09_c11_on.
+Print Assumptions tx_id_equal_or_collision.
+Print Assumptions ex_c09_c11_once_and_extract.
